@@ -83,6 +83,15 @@ func drvRedialM(args []string) int {
 				fmt.Fprintln(os.Stderr, "forwarder:", err)
 				return 2
 			}
+			if sc.Kind == "nestedcall" {
+				runNestedCall(rec, app, fw, srv, &sc, n)
+				fw.down()
+				g.ReleaseAll()
+				if err != nil {
+					break
+				}
+				continue
+			}
 			runRedialM(rec, app, g, fw, &sc, n)
 			fw.down()
 			g.ReleaseAll()
@@ -93,6 +102,86 @@ func drvRedialM(args []string) int {
 	}
 	rec.Flush()
 	return 0
+}
+
+// Nest is a CALL controller of the CLIENT side (route /nest/back): its handler calls the server back on its own session
+// and waits for the reply, as a handler of a bidirectional application may.
+type Nest struct{ erpc.CallCtx }
+
+var nestRec *Rec
+var nestDone chan struct{}
+
+// Back is the handler: the nested call's argument tag is the one it was given.
+func (n *Nest) Back(arg *Arg) (*Res, *erpc.Status) {
+	res := new(Res)
+	cmd := n.Session().Call(CallRoute, &Arg{Tag: arg.Tag}, res)
+	nestRec.Emit("CallDone", "code", cmd.Status().Code(), "msg", cmd.Status().Msg(), "resok", res.Tag == F(arg.Tag), "tag", arg.Tag, "nested", true)
+	close(nestDone)
+	return &Res{Tag: F(arg.Tag)}, nil
+}
+
+// runNestedCall: the server calls a client handler, which calls the server back on the same session and waits; the
+// connection is then lost.  The nested call is a call in flight at the moment of the loss: it must complete (with a
+// connection error), not hang (C02).  No redial.
+func runNestedCall(rec *Rec, app *App, fw *forwarder, srv erpc.Peer, sc *RedialMScenario, n int) {
+	rec.SetTrace(sc.ID, map[string]interface{}{"mode": "redialm", "kind": sc.Kind, "alwaysup": true, "closed": true})
+	fw.up()
+	app.ClearBehav()
+	nestRec, nestDone = rec, make(chan struct{})
+	cli := erpc.NewPeer(erpc.PeerConfig{DialTimeout: 2 * time.Second})
+	cli.RouteCall(new(Nest))
+	sess, st := cli.Dial(fw.addr)
+	if !st.OK() {
+		rec.Emit("EnvFailure", "what", "dial: "+st.String())
+		return
+	}
+	rec.Emit("DialDone", "ok", true)
+	defer func() {
+		done := make(chan struct{})
+		go func() { cli.Close(); close(done) }()
+		select {
+		case <-done:
+		case <-time.After(2 * time.Second):
+		}
+		fw.cut()
+		rec.Flush()
+	}()
+	if cmd := sess.Call(CallRoute, &Arg{Tag: sc.ID + ".warm"}, new(Res)); !cmd.Status().OK() {
+		rec.Emit("EnvFailure", "what", "warm-up call: "+cmd.Status().String())
+		return
+	}
+	// the server's session for this connection
+	var ss erpc.Session
+	WaitUntil(time.Second, func() bool {
+		srv.RangeSession(func(x erpc.Session) bool {
+			if x.Health() {
+				ss = x
+			}
+			return true
+		})
+		return ss != nil
+	})
+	if ss == nil {
+		rec.Emit("EnvFailure", "what", "no serving session")
+		return
+	}
+	tag := sc.ID + ".nested"
+	hold := &Behav{Hold: make(chan struct{}), Entered: make(chan struct{})}
+	app.SetBehav(tag, hold)
+	defer releaseHold(hold)
+	ss.AsyncCall("/nest/back", &Arg{Tag: tag}, new(Res), make(chan erpc.CallCmd, 1))
+	select {
+	case <-hold.Entered: // the nested call has reached the server's handler: it is in flight
+	case <-time.After(3 * time.Second):
+		rec.Emit("EnvFailure", "what", "the nested call never reached the server")
+		return
+	}
+	fw.cut()
+	select {
+	case <-nestDone:
+	case <-time.After(10 * time.Second):
+		rec.Emit("CallHang", "tag", tag, "nested", true)
+	}
 }
 
 // runEarlyReply: a hostile remote (a scripted raw peer) answers a call it has not received yet, while the caller is still
